@@ -282,6 +282,23 @@ def explore(ctx):
                 ctx.oracle_failure(info, ['save/load raised %r' % (e,)], extra)
                 continue
             fails, tags = compare_loaded(c, d, d2, fmt, had_wcs)
+            if not fails and np.dtype(c.get('dtype', 'float64')).kind in 'iu' and len(d) >= 2:
+                # "identical answers": the loaded copy must also behave like the original under the next operation -
+                # prune both with a min_delta that does not fit a narrow integer type
+                try:
+                    import copy as _copy
+                    span = int(np.max(d.data)) - int(np.min(d.data))
+                    md = rng.choice([max(1, span // 2), span, max(1, span - 1)])
+                    da, db = _copy.deepcopy(d), d2
+                    ha0 = impl.impl_hierarchy(da, tuple(c['shape']))
+                    da.prune(min_delta=md)
+                    db.prune(min_delta=md)
+                    ha, hb = impl.impl_hierarchy(da, tuple(c['shape'])), impl.impl_hierarchy(db, tuple(c['shape']))
+                    if ha != hb:
+                        fails.append('prune(min_delta=%d) of the loaded copy gives %s, of the original %s' % (md, hb, ha))
+                    d2 = dc.save_load(d, fmt)          # a fresh loaded copy for the comparisons below
+                except Exception as e:
+                    fails.append('pruning the loaded copy raised %r' % (e,))
             key = (fmt, how, tuple(c['vals']), tuple(c['shape']), str(history)) if len(d) >= 3 else None
             ctx.case_done(c, key, sample=info if key else None)
             for tg in sorted(set(tags)):
